@@ -83,6 +83,10 @@ pub enum Req {
     /// an otherwise ordinary EDNS TXT query (or UPDATE, `update`) whose OPT record is counted in the
     /// answer (0) or authority (1) section instead of the additional section
     MisplacedOpt { id: u16, name: String, section: u8, update: bool },
+    /// an otherwise ordinary request with one class-IN A or AAAA record whose RDLENGTH is not the
+    /// size of an address (0, 1, 3, 5, 15, 17) in the answer (0), authority (1) or additional (2)
+    /// section; `opcode` 0 QUERY, 2 STATUS, 4 NOTIFY
+    BadAddrRdlen { id: u16, name: String, section: u8, aaaa: bool, rdlen: u8, opcode: u8 },
     /// STATUS / NOTIFY / IQUERY / DSO / unassigned opcodes with an ordinary question
     OtherOp {
         id: u16,
@@ -220,6 +224,8 @@ fn req() -> impl Strategy<Value = Req> {
         1 => vec(any::<u8>(), 0..12).prop_map(Req::Short),
         2 => (any::<u16>(), prop_oneof![Just(0u8), Just(2u8)], prop::sample::select(qname_pool())).prop_map(|(id, n, name)| Req::QdCount { id, n, name }),
         1 => (any::<u16>(), prop::sample::select(qname_pool()), 0u8..2, prop::bool::weighted(0.2)).prop_map(|(id, name, section, update)| Req::MisplacedOpt { id, name, section, update }),
+        2 => (any::<u16>(), prop::sample::select(qname_pool()), 0u8..3, any::<bool>(), prop::sample::select(vec![0u8, 0, 0, 1, 3, 5, 15, 17]), prop_oneof![6 => Just(0u8), 1 => Just(2u8), 1 => Just(4u8)])
+            .prop_map(|(id, name, section, aaaa, rdlen, opcode)| Req::BadAddrRdlen { id, name, section, aaaa, rdlen, opcode }),
         3 => (
             any::<u16>(),
             prop_oneof![4 => Just(0u8), 1 => Just(5u8), 1 => 0u8..16],
@@ -336,6 +342,26 @@ fn render(r: &Req) -> (Vec<u8>, bool) {
             // the oracle finds the defect itself (an OPT outside the additional section)
             (v, true)
         }
+        Req::BadAddrRdlen { id, name, section, aaaa, rdlen, opcode } => {
+            let mut counts = [1u16, 0, 0, 0];
+            counts[1 + (*section as usize % 3)] = 1;
+            let mut v = wl::header_bytes(*id, false, *opcode, 0, 0, counts);
+            let qn = wl::parse_name_str(name);
+            wl::put_question(&mut v, &qn, wl::T_TXT, 1);
+            let rdlen = if (*aaaa && *rdlen == 16) || (!*aaaa && *rdlen == 4) { 0 } else { *rdlen };
+            wl::put_rr(
+                &mut v,
+                &wl::OutRr {
+                    owner: qn,
+                    rtype: if *aaaa { wl::T_AAAA } else { wl::T_A },
+                    class: 1,
+                    ttl: 60,
+                    rdata: vec![7; rdlen as usize],
+                },
+            );
+            // the oracle finds the defect itself (an address record that is not an address)
+            (v, true)
+        }
         Req::OtherOp { id, opcode, name, qtype, edns } => {
             let mut v = wl::header_bytes(*id, false, *opcode, 0, 0, [1, 0, 0, edns.is_some() as u16]);
             wl::put_question(&mut v, &wl::parse_name_str(name), *qtype, 1);
@@ -431,6 +457,8 @@ fn kind_label(r: &Req) -> &'static str {
         Req::QueryExtra { opts: 2, .. } => "req/query-two-opt",
         Req::QueryExtra { .. } => "req/query-extra-additional",
         Req::MisplacedOpt { .. } => "req/opt-outside-additional-section",
+        Req::BadAddrRdlen { rdlen: 0, section: 2, opcode: 0, .. } => "req/query-with-empty-address-record-in-additional",
+        Req::BadAddrRdlen { .. } => "req/address-record-with-wrong-rdlength",
         Req::OtherOp { edns: Some(e), .. } if e.version > 0 => "req/other-opcode-edns-version>0",
         Req::OtherOp { opcode: 2, .. } => "req/status",
         Req::OtherOp { opcode: 4, .. } => "req/notify",
@@ -827,6 +855,6 @@ pub fn check() -> Option<Check> {
             "sources have a non-zero port and are neither unspecified nor broadcast (the socket loops drop those before the front door)",
             "access rules as documented in crates/server/src/access.rs; where the text does not say whether 'no entries' is per address family both outcomes are accepted (gate 'maybe-denied')",
         ],
-        subs: vec![frontdoor],
+        subs: vec![frontdoor, crate::checks::c17::idle_wrapper_sub("tcp_read_loop_idle_wrapper", 30_000, 1_000_000)],
     })
 }
